@@ -435,7 +435,7 @@ fn sym_strategy() -> impl Strategy<Value = Out> {
 
 fn sampled_strategy() -> BoxedStrategy<Case> {
     // grid values first (shrinking moves towards them), then a few off-grid ones
-    let initials: Vec<Duration> = INITIALS.into_iter().chain([Duration::from_millis(7), Duration::from_secs(3600)]).collect();
+    let initials: Vec<Duration> = INITIALS.into_iter().chain([Duration::from_millis(7), Duration::from_secs(3600), Duration::from_secs(u64::MAX), Duration::MAX]).collect();
     let maxes: Vec<Duration> = MAXES.into_iter().chain([Duration::from_millis(50), Duration::from_secs(86_400 * 365)]).collect();
     let mults: Vec<&'static str> = MULTS.into_iter().chain(["1.5", "3", "inf", "-inf", "-0", "1e-30", "1.7976931348623157e308"]).collect();
     (
